@@ -118,6 +118,8 @@ def ev(v, val, hooks=None):
                 return round(*args)
             if name == 'divmod':
                 return divmod(args[0], args[1])
+        if op == 'call' and a[0] == 'hasattr' and len(a) == 3:
+            return hasattr(ev(a[1], val, hooks), ev(a[2], val, hooks))
         if op == 'call' and a[0] == 'int.from_bytes':
             pos, kw = [], {}
             for x in a[1:]:
@@ -244,6 +246,8 @@ def ev(v, val, hooks=None):
                 raise Raised('AttributeError')
             except TypeError:
                 raise Raised('TypeError')
+            except (UnicodeError, LookupError, ValueError) as e:
+                raise Raised(type(e).__name__)
             except ValueError:
                 raise Raised('ValueError')
             except OverflowError:
